@@ -226,6 +226,10 @@ def build_fenv(items, enc_classes, extra_globals=()):
     return "[%s]" % ";\n   ".join(mt), "[%s]" % ";\n   ".join(gt)
 
 
+class HarnessError(Exception):
+    """a problem of the generator itself (never a CPython observation)"""
+
+
 EXTERNAL = [0]      # > 0 while a replayed (external) call is executing: its random draws are not PySem's
 
 
@@ -237,8 +241,8 @@ class NormalPatch:
         def normal(loc=0.0, scale=1.0, size=None):
             if EXTERNAL[0] > 0:
                 return self.orig(loc, scale, size)
-            if size is not None and size != 1: raise RuntimeError("corr_pysem: sized normal draw not modelled")
-            if self.k >= len(self.zs): raise RuntimeError("corr_pysem: variate stream exhausted")
+            if size is not None and size != 1: raise HarnessError("corr_pysem: sized normal draw not modelled")
+            if self.k >= len(self.zs): raise HarnessError("corr_pysem: variate stream exhausted")
             z = self.zs[self.k]; self.k += 1
             return loc + scale * z if size is None else np.array([loc + scale * z])
         np.random.normal = normal
@@ -251,7 +255,8 @@ def make_lemma(idx, case, items):
     enc = Enc()
     cls, fn = case["target"]
     obj = case.get("obj")
-    selfv = "None" if obj is None else "(Some %s)" % enc.val(obj)
+    enc_self_plain = "VNone" if obj is None else enc.val(obj)
+    selfv = "None" if obj is None else "(Some %s)" % enc_self_plain
     args = "[%s]" % "; ".join(enc.val(a) for a in case.get("args", []))
     kws = "[%s]" % "; ".join("(%s, %s)" % (q(k), enc.val(v)) for k, v in case.get("kwargs", {}).items())
     zs = case.get("draws", [])
@@ -265,7 +270,7 @@ def make_lemma(idx, case, items):
                 f = getattr(obj, fn) if obj is not None else case["callable"]
                 out = f(*case.get("args", []), **case.get("kwargs", {}))
             exc = None
-        except RuntimeError:
+        except HarnessError:
             raise
         except Exception as e:
             out, exc = None, type(e).__name__
@@ -285,8 +290,15 @@ def make_lemma(idx, case, items):
         else:
             mt_case.setdefault(d["pname"], []).append("(%s, replay_m %s [%s])" % (q(d["meth"]), q(tag), "; ".join(d["res"])))
     genv = "(mk_fenv ([%s] ++ MT) ([%s] ++ GT))" % ("; ".join("(%s, [%s])" % (q(c), "; ".join(r)) for c, r in mt_case.items()), "; ".join(gt_case))
-    mk = "(fun ds => call %s %d (CFun %s) %s %s %s (World (stream [%s]) 0 [] ds []))" % (
-        genv, case.get("fuel", 300), src_name(cls, fn), selfv, args, kws, "; ".join(coq_real(z) for z in zs))
+    if case.get("observe_self"):
+        # a method that mutates its receiver: the body is run with the parameters bound as given and the receiver AS IT IS WHEN THE BODY
+        # ENDS is the observed value (Tactics.run_method); CPython's counterpart is the object after the call
+        binds = "[%s]" % "; ".join("(%s, %s)" % (q(k), enc.val(v)) for k, v in case.get("bind", {}).items())
+        mk = "(fun ds => run_method %s %d %s %s %s (World (stream [%s]) 0 [] ds []))" % (
+            genv, case.get("fuel", 300), src_name(cls, fn), enc_self_plain, binds, "; ".join(coq_real(z) for z in zs))
+    else:
+        mk = "(fun ds => call %s %d (CFun %s) %s %s %s (World (stream [%s]) 0 [] ds []))" % (
+            genv, case.get("fuel", 300), src_name(cls, fn), selfv, args, kws, "; ".join(coq_real(z) for z in zs))
     if exc is not None:
         stmt = "corr_exc %s %s" % (mk, q(exc))
         obs = "raises " + exc
